@@ -71,7 +71,7 @@ def parse_protos(text):
                 p = p.strip()
                 mm = re.match(r'^(.*?)(\**)\s*(\w+)$', p)
                 ty = re.sub(r'\bconst\b', '', mm.group(1)).strip()
-                params.append((ty, mm.group(3), bool(mm.group(2))))
+                params.append((ty, mm.group(3), len(mm.group(2))))        # number of '*' (truthy = pointer parameter)
         nxt = text[m.end():].lstrip()[:1]
         sigs[m.group('name')] = {'ret': ret, 'params': params, 'throws': bool(m.group('throws')), 'has_contract': nxt not in (';', '{'),
                                  'proto': re.sub(r'^NIX_THROWS\s+', '', m.group(0).strip())}
